@@ -1,7 +1,23 @@
 ---- MODULE NewThreadMC ----
-EXTENDS NewThread, Json, IOUtils
+(* Model-checking instance of NewThread with export labels (thread of item i is exported as 200 + i).  *)
+EXTENDS NewThread, Json, IOUtils, TLCExt
+VARIABLES lastT, lastPc
 T == 1..4
 I == 1..4
 ScnSeq == JsonDeserialize(IOEnv.SCENARIOS)
 Scn == {ScnSeq[i] : i \in 1..Len(ScnSeq)}
+LInit == Init /\ lastT = 0 /\ lastPc = ""
+LNext == \/ \E t \in HThreads : HStep(t) /\ lastT' = t /\ lastPc' = pc[t]
+         \/ \E i \in Items : IStep(i) /\ lastT' = 200 + i /\ lastPc' = tpc[i]
+         \/ Finished /\ lastT' = 0 /\ lastPc' = ""
+LSpec == LInit /\ [][LNext]_<<vars, lastT, lastPc>>
+LFairSpec == LSpec /\ (\A t \in HThreads : WF_vars(HStep(t))) /\ (\A i \in Items : WF_vars(IStep(i)))
+LView == vars
+EdgeLog ==
+  LET rec == [s |-> <<TLCFP(vars), TLCFP(<<vars, 1>>)>>, t |-> <<TLCFP(vars'), TLCFP(<<vars', 1>>)>>,
+              th |-> lastT', pc |-> lastPc', scn |-> scn.id, done |-> AllDone',
+              obs |-> [ran |-> [k \in 1..Len(ranSeq') |-> <<ranSeq'[k][1], ranSeq'[k][2]>>]]]
+  IN (lastT' # 0) =>
+     Serialize(ToJson(rec) \o "\n", IOEnv.EDGES,
+        [format |-> "TXT", charset |-> "UTF-8", openOptions |-> <<"WRITE", "CREATE", "APPEND">>]).exitValue = 0
 ====
